@@ -161,7 +161,8 @@ type Sim struct {
 	// IODen: switch away from a task at an IOPoint with probability 1/IODen (0 = IOPoints off)
 	IODen      int
 	IOSwitches int
-	rngN       uint64 // random sources created so far
+	rngSalt    uint64 // per-run salt of the random sources
+	rngSalted  bool
 	ioLast     *Task
 	Exhausted  bool
 	logH       uint64
